@@ -17,6 +17,11 @@ var guards = map[string]guardSpec{
 	"Blockchain": {rel: "security/blockchain", typ: "Blockchain", mutex: "mut",
 		fields: []string{"blocks", "blockAtHeight", "pruneHeight", "pendingFetch"}},
 	"ViewStates":    {rel: "protocol", typ: "ViewStates", mutex: "mut", fields: []string{"highQC", "highTC", "view", "committedBlock"}},
+	"bls12Base":     {rel: "security/crypto", typ: "bls12Base", mutex: "mut", fields: []string{"popCache"}},
 	"VotingMachine": {rel: "protocol/votingmachine", typ: "VotingMachine", mutex: "mut", fields: []string{"verifiedVotes"}},
-	"Generator":     {rel: "twins", typ: "Generator", mutex: "mut", fields: []string{"remaining", "indices"}, optional: []string{"done"}},
+	"JSONWriter": {rel: "twins", typ: "JSONWriter", mutex: "mut", fields: []string{"first", "wr"},
+		exempt: map[string]string{
+			"(*hs/twins.JSONWriter).Close": "writes the closing bracket once, after every worker that writes scenarios has finished (the stream is complete only then)",
+		}},
+	"Generator": {rel: "twins", typ: "Generator", mutex: "mut", fields: []string{"remaining", "indices"}, optional: []string{"done"}},
 }
